@@ -265,6 +265,11 @@ func checkC01(r *Run) {
 		}
 	}
 	r.Floor("dir-record-bounds", nb, 2, "slice/make obligations in DecodeDir/EncodeDir")
+	if dd := r.P.Fn("p9p:DecodeDir"); dd != nil {
+		for _, f := range r.P.withHelpers(dd, 1) {
+			onlyForwardedErrors(r, f, "dir-record-bounds", "a representable stat record can be refused")
+		}
+	}
 	r.Exhaustive = true
 	_ = ast.Inspect
 }
